@@ -105,12 +105,20 @@ def free_number(rng, used, lo=1, hi=999):
     return max(used, default=0) + 1
 
 
+DEFAULT_KINDS = [
+    "cell_number", "surface_number", "material_number", "transform_number", "importance", "importance_all",
+    "volume", "atom_density", "mass_density", "surface_constant", "location", "radius", "fraction", "title",
+    "universe_number", "displacement",
+]
+
+
 def gen_edit(rng, p, kinds=None):
     """one valid edit for the current state of problem p, or None"""
     cells, surfs = p.cells.objects, p.surfaces.objects
     mats, trs, unis = p.materials.objects, p.transforms.objects, p.universes.objects
     mode = [k for k, v in PARTICLES.items() if _particle(k) in p.mode.particles]
-    pool = kinds or [
+    pool = kinds or DEFAULT_KINDS
+    _unused = [
         "cell_number", "surface_number", "material_number", "transform_number", "importance", "importance_all",
         "volume", "atom_density", "mass_density", "surface_constant", "location", "radius", "fraction", "title",
         "universe_number", "displacement",
@@ -162,6 +170,9 @@ def gen_edit(rng, p, kinds=None):
             return [k, rng.randrange(len(trs)), rng.randrange(3), short_float(rng, positive=False)]
         if k == "title":
             return [k, rng.choice(["edited title", "New Title 2", "x"])]
+        if k == "print_in_data_block":
+            # a setting, not in the default pool: moves a per-cell datum between the blocks (C19, C09 histories)
+            return [k, rng.choice(["imp", "imp", "vol", "u", "fill", "lat"]), rng.random() < 0.5]
     return None
 
 
